@@ -489,7 +489,7 @@ def check_direct(w, reaped):
     combos = w.combos_arg(reverse=True)
     with contextlib.redirect_stdout(io.StringIO()), contextlib.redirect_stderr(io.StringIO()):
         if w.farmer_kind == "sampler":
-            cases = [tuple(c) for c in cfg["cases"]]
+            cases = [tuple(w.val(v) for v in c) for c in cfg["cases"]]
             direct = r.run_cases(cases, fn_args=w.case_names, to_df=True, verbosity=0)
         elif cfg["nca"]:
             from xyzpy.gen.prepare import parse_combos
@@ -688,7 +688,7 @@ def do_step(w, ev):
                 val = 10 - w.n_direct
                 if w.farmer is None:
                     w.farmer = w.make_farmer()
-                w.farmer.harvest_combos({nm: [val] for nm in w.names}, verbosity=0)
+                w.farmer.harvest_combos({nm: [w.val(val)] for nm in w.names}, verbosity=0)
             elif a == "change_const":
                 w.kver = 1
                 r = w.farmer if w.farmer_kind == "runner" else w.farmer.runner
